@@ -3,7 +3,7 @@ operation.  Rules R13.1 - R13.6 (DESIGN 4.13)."""
 import ast
 
 from ..pymodel import AnalysisError, FuncInfo
-from ..astutil import (src, is_name, is_attr, is_const, call_name, norm_compare, orient,
+from ..astutil import (expand_preds, src, is_name, is_attr, is_const, call_name, norm_compare, orient,
                        walk_no_nested, strip_docstring, compare_atoms, enclosing_stmt,
                        parent, calls_in)
 from ..cfg import cfg_of, ENTRY, EXIT, RAISE
@@ -109,8 +109,8 @@ def _guarded_update_ok(ctx, fn, assign, cand_texts, selfn):
     for t, pol, owner in doms:
         if not pol:
             continue
-        # look for a comparison between cand and best inside the test
-        for c in ast.walk(t):
+        # look for a comparison between cand and best inside the test (trivial predicate helpers inlined)
+        for c in ast.walk(expand_preds(t)):
             if isinstance(c, ast.Compare) and len(c.ops) == 1:
                 l, r = src(c.left), src(c.comparators[0])
                 pair = {l.replace('.value', ''), r.replace('.value', '')}
